@@ -47,3 +47,33 @@ Print Assumptions C12_triple_quote_eq_atoms.
 Print Assumptions C12_triple_quote_pinned_refuted.
 Print Assumptions C12_bytes_repr_roundtrip.
 Print Assumptions C12_use_triple_spec.
+
+(* test files with a PEP 263 coding cookie (repair F-97: the new content is encoded with errors="backslashreplace"): a one-line str literal in which every
+   character the file's encoding cannot represent is replaced by its backslashreplace escape still reads back as the value - for every encoding that
+   represents ASCII; escaping is the same as treating those characters as not printable (encode_py_repr), and nothing representable is touched *)
+From V Require Proofs.StrLitEncode.
+Theorem C12_backslashreplace_roundtrip_single_line :
+  forall (enc_ok printable : cp -> bool) (s : str),
+  (forall c, c < 128 -> enc_ok c = true) -> Forall (fun c => c <= 1114111) s ->
+  decode_literal (encode_text enc_ok (py_repr printable s)) = Done s [].
+Proof. intros e p s H Hs. apply StrLitEncode.backslashreplace_roundtrip; assumption. Qed.
+Print Assumptions C12_backslashreplace_roundtrip_single_line.
+
+Theorem C12_encode_is_repr_with_fewer_printables :
+  forall (enc_ok printable : cp -> bool) (s : str),
+  (forall c, c < 128 -> enc_ok c = true) ->
+  encode_text enc_ok (py_repr printable s) = py_repr (fun c => printable c && enc_ok c) s.
+Proof. intros e p s H. apply StrLitEncode.encode_py_repr; assumption. Qed.
+Print Assumptions C12_encode_is_repr_with_fewer_printables.
+
+Theorem C12_encode_identity_when_representable :
+  forall (enc_ok : cp -> bool) (t : str), Forall (fun c => enc_ok c = true) t -> encode_text enc_ok t = t.
+Proof. exact StrLitEncode.encode_identity_when_representable. Qed.
+Print Assumptions C12_encode_identity_when_representable.
+
+Theorem C12_latin1_example :
+  let latin1 := fun c => c <? 256 in
+  encode_text latin1 (py_repr (fun _ => true) [233; 8364]) = [39; 233; 92; 117; 50; 48; 97; 99; 39]
+  /\ decode_literal (encode_text latin1 (py_repr (fun _ => true) [233; 8364])) = Done [233; 8364] [].
+Proof. exact StrLitEncode.latin1_example. Qed.
+Print Assumptions C12_latin1_example.
